@@ -189,11 +189,17 @@ type cmdProcessor interface {
 	Established() bool
 }
 
-// refused: the call came back with an error of its own - not the context's, and the session is fine - i.e. the
-// channel turned the request down (an id that is already waiting for its response).  (Decided without looking at the
-// wording of the error.)
+// refused: the call came back with an error of its own - not the context's (also when the context is over: the
+// channel looks at its table first), and the session is fine - i.e. the channel turned the request down (an id that
+// is already waiting for its response).  (Decided without looking at the wording of the error.)
 func refused(err error, ctx context.Context, proc cmdProcessor) bool {
-	return err != nil && ctx.Err() == nil && !errors.Is(err, context.Canceled) && !errors.Is(err, context.DeadlineExceeded) && proc.Established()
+	if err == nil || errors.Is(err, context.Canceled) || errors.Is(err, context.DeadlineExceeded) {
+		return false
+	}
+	if ce := ctx.Err(); ce != nil && strings.Contains(err.Error(), ce.Error()) {
+		return false // the context's error, passed on as text
+	}
+	return proc.Established()
 }
 
 type cmdPeer interface {
